@@ -171,7 +171,7 @@ def Expr.PlainL : List (Expr R) → Prop
 end
 
 section Eval
-variable [Add R] [Sub R] [Mul R] [Neg R] [LT R] [DecidableLT R] [LE R] [DecidableLE R]
+variable [Add R] [Sub R] [Mul R] [Div R] [Neg R] [LT R] [DecidableLT R] [LE R] [DecidableLE R]
   [BEq R] [OfNat R 0] [OfNat R 2]
 
 theorem Cond.evalBs_eq_map (v : View R) : ∀ cs : List (Cond R), Cond.evalBs v cs = cs.map (Cond.evalB v)
